@@ -75,12 +75,17 @@ func PmtAccumulatorDoneFunc(b []byte) (bool, error) {
 	}
 
 	start := 1 + int(PointerField(b))
-	if len(b) < start {
+	if len(b) <= start {
+		// not even the first byte of the first section has arrived
 		return false, nil
 	}
 
 	sectionBytes := b[start:]
-	for len(sectionBytes) > 2 && sectionBytes[0] != 0xFF {
+	for len(sectionBytes) > 0 && sectionBytes[0] != 0xFF {
+		if len(sectionBytes) < 3 {
+			// a section has started but its header is not complete yet
+			return false, nil
+		}
 		tableLength := sectionLength(sectionBytes)
 		if len(sectionBytes) < int(tableLength)+3 {
 			return false, nil
